@@ -751,3 +751,63 @@ func writeEvidence(chk *Check, tier string, seed int, t0 time.Time, results []ca
 	os.MkdirAll(VerifDir+"/evidence", 0o755)
 	os.WriteFile(VerifDir+"/evidence/"+chk.ID+".json", b, 0o644)
 }
+
+// Replay runs one stored counterexample natively and reports whether it reproduces.
+func Replay(path string) int {
+	b, err := os.ReadFile(path)
+	if err != nil {
+		fmt.Println("replay:", err)
+		return 2
+	}
+	var rf replayFile
+	if err := json.Unmarshal(b, &rf); err != nil {
+		fmt.Println("replay:", err)
+		return 2
+	}
+	chk := Registry[rf.Property]
+	if chk == nil {
+		fmt.Println("replay: unknown property", rf.Property)
+		return 2
+	}
+	files := append([]vm.HarnessFile{zzvrtFile}, chk.Files...)
+	patterns := []string{pkgPath("internal/zzvrt")}
+	for _, d := range chk.LoadPkgs {
+		patterns = append(patterns, pkgPath(d))
+	}
+	ld, err := vm.Load(RepoDir, files, patterns)
+	if err != nil {
+		fmt.Println("replay: load:", err)
+		return 2
+	}
+	m := vm.New(ld.Prog, ld.Pkgs, vm.RepoModule)
+	workDir := filepath.Join(VerifDir, "work", "replay-"+hashStr(path))
+	os.MkdirAll(workDir, 0o755)
+	defer os.RemoveAll(workDir)
+	abs, _ := filepath.Abs(path)
+	out, errs := runNative(ld, m, chk, workDir, map[string][]string{rf.Package: {abs}})
+	for _, e := range errs {
+		fmt.Println("replay:", e)
+	}
+	o, ok := out[abs]
+	if !ok {
+		return 2
+	}
+	ob, _ := json.MarshalIndent(o, "", " ")
+	fmt.Printf("harness=%s args=%q values=%v\nnative outcome: %s\n", rf.Harness, rf.Args, rf.Values, ob)
+	rep := false
+	if rf.Expect == "panic" {
+		rep = o.Panic != ""
+	} else {
+		for _, f := range o.Failed {
+			if f == rf.Expect {
+				rep = true
+			}
+		}
+	}
+	if rep {
+		fmt.Printf("REPRODUCED property=%s expect=%s\n", rf.Property, rf.Expect)
+		return 1
+	}
+	fmt.Printf("NOT-REPRODUCED property=%s expect=%s\n", rf.Property, rf.Expect)
+	return 0
+}
